@@ -414,7 +414,11 @@ PREFIXES = ["", "c", "C", "C_", "c_", "Cij", "c-", "C.", "s"]
 def render_table(rnd, nv, cols, with_lattice, prefix):
     from cij.util import c_
     vref, mass = round(rnd.uniform(100, 2000), 8), round(rnd.uniform(10, 500), 4)
-    lines = ["a title line with 3 numbers 1 2 3", "%.8f %d %.4f" % (vref, nv, mass)]
+    # the header numbers in plain and in exponent notation (Fortran / %E writers): float(token) either way
+    style = rnd.randrange(4)
+    head = ("%.8f %d %.4f", "%.10E %d %.6E", "%.10e   %d\t%.6e", "%r %d %r")[style] % (vref, nv, mass)
+    vref, mass = float(head.split()[0]), float(head.split()[2])
+    lines = ["a title line with 3 numbers 1 2 3", head]
     spell = []
     for (I, J) in cols:
         style = rnd.random()
